@@ -27,7 +27,7 @@ func init() {
 			"if package rtcp imports sync, sync/atomic or starts goroutines the schedule layer is skipped (blocking primitives are not intercepted) and the run is marked not exhaustive",
 			"a positive control (a deliberately racy scratch-buffer codec driven by the same explorer) must be found violating in every run",
 		},
-		BoundsQuick:    "histories of length <= 3; schedules: 2 threads, 1 operation each, preemption bound 2 (bound 1 for operations with more than 250 scheduling points)",
+		BoundsQuick:    "purity sweep over D; histories of length <= 3 over 13 operations; schedules: ~500 scenarios (same type, helper-sharing pairs, every pair of types, two operations per thread, three threads, shared packet, shared buffer), preemption bound 2 (bound 1 for executions above 250 scheduling points, for the all-pairs and the three-thread drivers)",
 		BoundsThorough: "histories of length <= 5; schedules: preemption bound 3 for executions up to 140 scheduling points, 2 up to 700, 1 above; adds 3-thread drivers at bound 1-2",
 	})
 }
@@ -496,6 +496,32 @@ func c18Scenarios(thorough bool) []c18scenario {
 			distinct(fmt.Sprintf("A':%s.%s||%s.%s", tp[0], pair[0], tp[1], pair[1]), tp[0], tp[1], byType[tp[0]][0], byType[tp[1]][0], pair[0], pair[1])
 		}
 	}
+	// every unordered pair of types: encoders and formatters side by side (state shared between
+	// two types that no hand-picked pair lists)
+	for i, ta := range types {
+		for _, tb := range types[i+1:] {
+			distinct(fmt.Sprintf("A'':%s.Marshal||%s.Marshal", ta, tb), ta, tb, byType[ta][0], byType[tb][0], "Marshal", "Marshal")
+			distinct(fmt.Sprintf("A'':%s.Format+v||%s.Format+v", ta, tb), ta, tb, byType[ta][0], byType[tb][0], "Format+v", "Format+v")
+		}
+	}
+	// two operations per thread
+	for _, t := range types {
+		os := byType[t]
+		if len(os) < 2 {
+			continue
+		}
+		t := t
+		m, un := opByName("Marshal"), opByName("Unmarshal(B)")
+		wa, wb := wireOf(os[0].alt), wireOf(os[1].alt)
+		out = append(out, c18scenario{name: fmt.Sprintf("A2:%s Marshal;Unmarshal || Unmarshal;Marshal", t), driver: "A2-two-ops-per-thread", mk: func() ([]c18thread, func() string) {
+			pa, pb := os[0].mk(), os[1].mk()
+			Ba, Bb := append([]byte{}, wa...), append([]byte{}, wb...)
+			return []c18thread{
+				{"Marshal;Unmarshal", func() string { r1, _ := m.run(pa, t, nil); r2, _ := un.run(nil, t, Ba); return r1 + "#" + r2 }},
+				{"Unmarshal;Marshal", func() string { r1, _ := un.run(nil, t, Bb); r2, _ := m.run(pb, t, nil); return r1 + "#" + r2 }},
+			}, func() string { return fmt.Sprintf("%x|%x", Ba, Bb) }
+		}})
+	}
 	// (B) read-only operations on one shared packet
 	for _, t := range types {
 		o := byType[t][0]
@@ -542,7 +568,7 @@ func c18Scenarios(thorough bool) []c18scenario {
 			}, func() string { return fmt.Sprintf("%x", B) }
 		}})
 	}
-	if thorough {
+	{
 		// three threads: two encoders and a decoder of the same type
 		for _, t := range types {
 			os := byType[t]
@@ -757,12 +783,15 @@ func c18Schedules(c *bx.Ctx) {
 			default:
 				bound = 1
 			}
-			if strings.HasPrefix(sc.name, "A3:") {
-				bound = 1
-				if st0.MaxPoints <= 100 {
-					bound = 2
-				}
+		}
+		if strings.HasPrefix(sc.name, "A3:") {
+			bound = 1
+			if c.Thorough() && st0.MaxPoints <= 100 {
+				bound = 2
 			}
+		}
+		if strings.HasPrefix(sc.name, "A'':") && !c.Thorough() {
+			bound = 1
 		}
 		for b := 1; b <= bound; b++ {
 			st, bad := c18Explore(c, sc, b, 3_000_000)
